@@ -408,8 +408,8 @@ pub fn gen_field(t: &mut Tape, o: &RelOpts) -> (RelField, String, Layout) {
     };
     let mut f = RelField::default();
     // now and then a long field (well beyond one 79-column line), where the caller allows at least four items
-    let max_items = if o.max_items >= 4 && t.chance(1, 30) { 24 } else { o.max_items };
-    let (num, den) = if max_items > o.max_items { (15, 16) } else { (2, 3) };
+    let max_items = if o.max_items >= 4 && t.chance(1, 30) { 40 } else { o.max_items };
+    let (num, den) = if max_items > o.max_items { (24, 25) } else { (2, 3) };
     while t.more(f.items.len(), 0, max_items, num, den) {
         let k = t.below(12);
         if k == 11 && o.empties {
